@@ -29,15 +29,15 @@ type HistOp struct {
 // kernel chooses among all enabled events: client sends, lock grants, individual
 // backend requests, reply segments.
 type concEnv struct {
-	plan   Plan
-	w      *kernel.World
-	d      *stack.Deployment
-	conns  []*kernel.ClientConn
-	next   []int // next op index per connection
-	cur    []*HistOp
-	hist   []*HistOp
-	stamp  int64
-	res    *Result
+	plan      Plan
+	w         *kernel.World
+	d         *stack.Deployment
+	conns     []*kernel.ClientConn
+	next      []int // next op index per connection
+	cur       []*HistOp
+	hist      []*HistOp
+	stamp     int64
+	res       *Result
 	lastOwner string
 }
 
